@@ -40,7 +40,15 @@ REQUIRED_THEOREMS = [
     "conversion_commutes_with_divergence_poly_polar_partial", "conversion_commutes_with_divergence_poly_spherical_partial",
     "cyl_op_conversion_commutes_with_divergence_partial", "conversion_commutes_with_gradient_poly_partial",
     "from_expression_getitem",
+    # Props/C19Gap.lean (gap round): operator order for polar / spherical grids, gradient of a vector field
+    "operators_use_component_order_polar", "operators_use_component_order_spherical",
+    "operators_use_component_order_spherical_tensor",
+    "polar_conversion_commutes_with_vector_gradient_real", "polarVectorGradientCont_matches_kernel",
+    # Props/C19Jac.lean: the Jacobian of the bipolar / bispherical systems is the derivative of pos_to_cart
+    "bipolar_jacobian_hasDerivAt", "bisph_jacobian_hasDerivAt",
+    "bipolar_jacobian_derivation", "bisph_jacobian_derivation",
 ]
+EXTRA_PROP_FILES = ["C19Gap", "C19Jac"]
 RULE = ("legs: coordsys (5 curvilinear coordinate systems + Cartesian 1-3d at random points, batches and "
         "single points, exact Pythagorean (c,s) pairs and random angles), vtc (GridBase._vector_to_cartesian on "
         "random points/components and unit fields of every named axis for every grid class), order (axes, "
@@ -440,6 +448,9 @@ def cs_real(sys, a, pts, comps=None):
         Jerr.append(float(np.max(errs)))
     out["Jn"] = Jn
     out["Jn_err"] = Jerr
+    # `pos_to_cart` of the batch itself (compared with the model's bipolarToCart / bisphToCart)
+    X = np.asarray(c.pos_to_cart(arg), dtype=float)
+    out["X"] = [X.reshape(d)] if single else [X[k] for k in range(m)]
     if comps is not None:
         C = np.array(comps, dtype=float)              # (m, d)
         v = np.asarray(c.vec_to_cart(arg, C[0] if single else C.T), dtype=float)
@@ -559,6 +570,25 @@ def coordsys_case(ctx, P, case):
                                  "identity, 1", "model contradicts its own theorems at an exact point")
                     return
     P.add("c19.cs", {"sys": sys, "pts": case["params"]}, cont)
+    if sys not in ("bipolar", "bispherical"):
+        return      # pos_to_cart of the other systems: C12 and the handler c19.postocart (leg convert)
+
+    def cont_pos(resp):
+        # the real `pos_to_cart` of the batch against the model's `bipolarToCart` / `bisphToCart` (the maps
+        # the theorems of Props/C19Jac.lean differentiate), fed with the same (c,s), (ch,sh) pairs
+        val = model_ok(ctx, resp, "coordsys", case)
+        if val is None:
+            return
+        ctx.impl_traces += 1
+        ctx.hist("coordsys-postocart", f"{sys}/{case['stream']}", m)
+        for k in range(m):
+            xm, xr = vec_f(val[k]), real["X"][k]
+            sx = max(1.0, float(np.abs(xm).max()))
+            if exceeds(maxdiff(xm, xr), TOL * 10 * sx):
+                ctx.disagree("coordsys", dict(case, point=k), {"pos_to_cart": jl(xm)}, {"pos_to_cart": jl(xr)},
+                             f"{sys} pos_to_cart")
+                return
+    P.add("c19.bipostocart", {"sys": sys, "pts": case["params"]}, cont_pos)
 
 
 
